@@ -29,6 +29,23 @@ impl Er {
     }
 }
 
+/// Injected error values are plan integers: 1 and 2 are two distinguishable user errors
+/// (`Error::Other`), 3 is the crate's own `Error::FromNone` (what a `NoneToError` upstream produces).
+pub fn err_of(k: u8) -> Error<E> {
+    if k == 3 {
+        Error::FromNone
+    } else {
+        Error::Other(k)
+    }
+}
+pub fn er_of(k: u8) -> Er {
+    if k == 3 {
+        Er::FromNone
+    } else {
+        Er::Other(k)
+    }
+}
+
 #[derive(Clone, Copy, PartialEq, Eq, Debug, Hash)]
 pub enum Val {
     F(u32),
